@@ -60,3 +60,56 @@ def bmm_const_lhs(case, violation=None):
       if n['op'] == 'BATCH_MATMUL' and sg['tensors'][n['in'][0]]['kind'] == 'const':
         return True
   return False
+
+
+def bmm_drq_multibatch(case, violation=None):
+  """A dynamic-range BATCH_MATMUL whose operands have >= 2 batch dimensions of size > 1."""
+  for si, n, p in resolved_ops(case):
+    if n['op'] != 'BATCH_MATMUL' or p.mode != 'drq':
+      continue
+    sg = case['model']['subgraphs'][si]
+    if not any(sg['tensors'][t]['kind'] == 'const' for t in n['in']):
+      continue
+    for t in n['in']:
+      batch = sg['tensors'][t]['shape'][:-2]
+      if sum(1 for d in batch if d > 1) >= 2:
+        return True
+  return False
+
+
+# Findings whose failure mode is undefined behaviour inside the runtime kernels
+# (out-of-bounds reads/writes): such models must not be executed in a worker.
+UNSAFE = [('dw-drq-tensorwise', dw_drq_tensorwise),
+          ('emb-int4-odd-width', emb_int4_odd_width),
+          ('bmm-drq-multibatch', bmm_drq_multibatch)]
+
+
+def unsafe_findings(case):
+  """Names of the runtime-UB findings the case's quantized model would trigger."""
+  try:
+    return [name for name, pred in UNSAFE if pred(case, None)]
+  except Exception:  # a case the reference resolution cannot handle is not ours to exclude
+    return []
+
+
+def addsub_int16_pot(case, violation=None):
+  """An ADD/SUB (potScaleInt16=True, as the converter writes it) resolved to 16-bit static quantization."""
+  for si, n, p in resolved_ops(case):
+    if n['op'] in ('ADD', 'SUB') and p.mode == 'srq' and p.cfg.activation_tensor_config.num_bits == 16:
+      if n.get('opts', {}).get('potScaleInt16', False):
+        return True
+  return False
+
+
+_isolated_budget = {}
+
+
+def take_isolation_budget(names, per_finding=2):
+  """True while this worker may still spend a throw-away process on these findings;
+  afterwards such cases are excluded (and counted) instead of executed."""
+  ok = False
+  for n in names:
+    if _isolated_budget.get(n, 0) < per_finding:
+      _isolated_budget[n] = _isolated_budget.get(n, 0) + 1
+      ok = True
+  return ok
